@@ -32,7 +32,7 @@ ANCHORS = ["dagrt.codegen.fortran:CodeGenerator.emit_deinit_for_last_usage_of_va
            "dagrt.codegen.fortran:CodeGenerator.emit_variable_deinit",
            "dagrt.codegen.fortran:CodeGenerator.emit_shutdown",
            "dagrt.codegen.analysis:var_to_last_dependent_statement_mapping"]
-MIN_NONTRIVIAL = {"quick": 100, "thorough": 1300}
+MIN_NONTRIVIAL = {"quick": 100, "thorough": 2730}
 REQUIRED_COUNTERS = {"quick": ["programs_under_asan", "run_calls", "asan_malloc_calls_observed",
                                "release_call_sites_in_generated_code"],
                      "thorough": ["programs_under_asan", "run_calls", "asan_malloc_calls_observed",
@@ -42,7 +42,7 @@ SHARD_TIMEOUT = {"quick": 900, "thorough": 3400}
 
 
 def plan(tier, seed):
-    per = 14 if tier == "quick" else 160
+    per = 14 if tier == "quick" else 480
     return [{"seed": f"C12:{seed}:{k}", "count": per, "trace_every": 2,
              "valgrind_every": 0 if tier == "quick" else 8} for k in range(16)]
 
